@@ -66,14 +66,18 @@ Level(d) ==            \* all bodies nested at most d deep
 Codes == {x[2] : x \in Level(CodeDepth)}
 
 (* ---------------- the checker, step by step ---------------- *)
-VARIABLES name, code,          \* the input, fixed after Init
+VARIABLES name, code,          \* the input, fixed after Pick
           pc, i, stack, verdict
 vars == <<name, code, pc, i, stack, verdict>>
 
 Items(body, lam) == [k \in 1..Len(body) |-> <<body[k], lam>>]
 
-Init == /\ name \in Names /\ code \in Codes
-        /\ pc = "len" /\ i = 1 /\ stack = <<>> /\ verdict = "none"
+\* The input is picked by the first action, not by Init: TLC handles a large set of successor states
+\* much better than a large set of initial states.
+Init == name = <<>> /\ code = <<>> /\ pc = "pick" /\ i = 1 /\ stack = <<>> /\ verdict = "none"
+Pick == /\ pc = "pick"
+        /\ name' \in Names /\ code' \in Codes
+        /\ pc' = "len" /\ UNCHANGED <<i, stack, verdict>>
 
 Reject == pc' = "done" /\ verdict' = "reject" /\ UNCHANGED <<i, stack>>
 
@@ -98,7 +102,7 @@ Visit == /\ pc = "walk"
                    [] n[1] = "C2" -> stack' = Items(n[2], lam) \o Items(n[3], lam) \o rest /\ UNCHANGED <<pc, i, verdict>>
                    [] n[1] = "L" -> stack' = Items(n[3], TRUE) \o rest /\ UNCHANGED <<pc, i, verdict>>
          /\ UNCHANGED <<name, code>>
-Next == CheckLen \/ CheckChar \/ Visit
+Next == Pick \/ CheckLen \/ CheckChar \/ Visit
 Spec == Init /\ [][Next]_vars
 
 (* ---------------- C32, declaratively ---------------- *)
